@@ -7,6 +7,7 @@ engine only enters through the range it produced.
 import Vicut.Model.Verbs
 import Vicut.Model.Motions
 import Vicut.Model.Words
+import Vicut.Model.Delims
 import Vicut.Props.C09
 
 namespace Vicut.C08
@@ -1652,3 +1653,309 @@ example : (SK.mk [0, 2, 2, 0, 2]).nextStart 2 = some 3 := by decide
 example : (SK.mk [0, 3, 0, 1, 0, 2]).nextStart 0 = none := by decide
 
 end Vicut.Sentence
+
+/-! ## Delimiter motions: `%` and `[(` `])` `[{` `]}` (model `Vicut.Model.Delims`)
+
+The nesting scan of `%` is characterised exactly (sound and complete): the answer is the first partner
+delimiter at which the nesting of that kind returns to zero. `%` from a closer was broken at the pinned
+commit (the motion always failed: a `u32` depth wrapped); it is repaired (fix 3a24e4e) and the pre-fix scan is
+kept as `scanMatchOld` with a kernel-checked witness. -/
+namespace Vicut.DelimThms
+open Vicut Vicut.Delim
+
+/-- **Soundness of the nesting scan**: the answer is a `tgt`, there the depth is back to zero, and nowhere
+before. -/
+theorem scanMatch_sound (new tgt : Gr) (hne : new ≠ tgt) :
+    ∀ (xs : List Gr) (d k : Nat), 1 ≤ d → scanMatch new tgt xs d = some k →
+      xs[k]? = some tgt ∧ d + (xs.take (k + 1)).count new = (xs.take (k + 1)).count tgt ∧
+      ∀ j, j < k → (xs.take (j + 1)).count tgt < d + (xs.take (j + 1)).count new := by
+  intro xs
+  induction xs with
+  | nil => intro d k _ h; simp [scanMatch] at h
+  | cons g rest ih =>
+    intro d k hd h
+    unfold scanMatch at h
+    by_cases h1 : g = new
+    · subst h1
+      simp only [if_true] at h
+      cases hs : scanMatch g tgt rest (d + 1) with
+      | none => simp [hs] at h
+      | some k' =>
+        simp [hs] at h
+        subst h
+        obtain ⟨a, b, c⟩ := ih (d + 1) k' (by omega) hs
+        refine ⟨by simpa using a, ?_, ?_⟩
+        · simp [List.take_succ_cons, hne] at b ⊢ <;> omega
+        · intro j hj
+          cases j with
+          | zero => simp [hne] <;> omega
+          | succ j' =>
+            have := c j' (by omega)
+            simp [List.take_succ_cons, hne] at this ⊢ <;> omega
+    · simp only [h1, if_false] at h
+      by_cases h2 : g = tgt
+      · subst h2
+        simp only [if_true] at h
+        by_cases h3 : d - 1 = 0
+        · simp [h3] at h
+          subst h
+          have hne' : ¬ (g = new) := h1
+          refine ⟨by simp, ?_, by intro j hj; omega⟩
+          simp [hne'] <;> omega
+        · simp only [h3, if_false] at h
+          cases hs : scanMatch new g rest (d - 1) with
+          | none => simp [hs] at h
+          | some k' =>
+            simp [hs] at h
+            subst h
+            obtain ⟨a, b, c⟩ := ih (d - 1) k' (by omega) hs
+            have hne' : ¬ (g = new) := h1
+            refine ⟨by simpa using a, ?_, ?_⟩
+            · simp [List.take_succ_cons, hne'] at b ⊢ <;> omega
+            · intro j hj
+              cases j with
+              | zero => simp [hne'] <;> omega
+              | succ j' =>
+                have := c j' (by omega)
+                simp [List.take_succ_cons, hne'] at this ⊢ <;> omega
+      · simp only [h2, if_false] at h
+        cases hs : scanMatch new tgt rest d with
+        | none => simp [hs] at h
+        | some k' =>
+          simp [hs] at h
+          subst h
+          obtain ⟨a, b, c⟩ := ih d k' hd hs
+          refine ⟨by simpa using a, ?_, ?_⟩
+          · simp [List.take_succ_cons, h1, h2] at b ⊢ <;> omega
+          · intro j hj
+            cases j with
+            | zero => simp [h1, h2] <;> omega
+            | succ j' =>
+              have := c j' (by omega)
+              simp [List.take_succ_cons, h1, h2] at this ⊢ <;> omega
+
+
+/-- **Completeness**: when the scan fails the depth never comes back to zero. -/
+theorem scanMatch_none (new tgt : Gr) (hne : new ≠ tgt) :
+    ∀ (xs : List Gr) (d : Nat), 1 ≤ d → scanMatch new tgt xs d = none →
+      ∀ k, k < xs.length → (xs.take (k + 1)).count tgt < d + (xs.take (k + 1)).count new := by
+  intro xs
+  induction xs with
+  | nil => intro d _ _ k hk; simp at hk
+  | cons g rest ih =>
+    intro d hd h k hk
+    unfold scanMatch at h
+    by_cases h1 : g = new
+    · subst h1
+      simp only [if_true, Option.map_eq_none_iff] at h
+      cases k with
+      | zero => simp [hne] <;> omega
+      | succ k' =>
+        have := ih (d + 1) (by omega) h k' (by simpa using hk)
+        simp [List.take_succ_cons, hne] at this ⊢ <;> omega
+    · simp only [h1, if_false] at h
+      by_cases h2 : g = tgt
+      · subst h2
+        simp only [if_true] at h
+        by_cases h3 : d - 1 = 0
+        · simp [h3] at h
+        · simp only [h3, if_false, Option.map_eq_none_iff] at h
+          have hne' : ¬ (g = new) := h1
+          cases k with
+          | zero => simp [hne'] <;> omega
+          | succ k' =>
+            have := ih (d - 1) (by omega) h k' (by simpa using hk)
+            simp [List.take_succ_cons, hne'] at this ⊢ <;> omega
+      · simp only [h2, if_false, Option.map_eq_none_iff] at h
+        cases k with
+        | zero => simp [h1, h2] <;> omega
+        | succ k' =>
+          have := ih d hd h k' (by simpa using hk)
+          simp [List.take_succ_cons, h1, h2] at this ⊢ <;> omega
+
+theorem partner_ne (g tgt : Gr) (b : Bool) (h : partner g = some (tgt, b)) : g ≠ tgt := by
+  unfold partner at h
+  repeat' split at h
+  all_goals first | (simp at h; obtain ⟨rfl, _⟩ := h; subst_vars; decide) | simp at h
+
+/-- **`%` from an opener** lands on its closer: the first later closer of the same kind at which the
+nesting of that kind (openers of the kind minus closers of the kind, counted from the opener on) is back to
+zero. -/
+theorem matchFrom_forward (gs : List Gr) (idx j : Nat) (g tgt : Gr)
+    (hg : gs[idx]? = some g) (hp : partner g = some (tgt, true)) (h : matchFrom gs idx = some j) :
+    ∃ k, j = idx + 1 + k ∧ gs[j]? = some tgt ∧
+      1 + ((gs.drop (idx + 1)).take (k + 1)).count g = ((gs.drop (idx + 1)).take (k + 1)).count tgt ∧
+      ∀ i, i < k → ((gs.drop (idx + 1)).take (i + 1)).count tgt < 1 + ((gs.drop (idx + 1)).take (i + 1)).count g := by
+  have hne := partner_ne g tgt true hp
+  unfold matchFrom at h
+  simp only [hg, hp] at h
+  have hd : gs.drop idx = g :: gs.drop (idx + 1) := by
+    have hlt : idx < gs.length := by
+      rcases Nat.lt_or_ge idx gs.length with h' | h'
+      · exact h'
+      · simp [List.getElem?_eq_none_iff.mpr h'] at hg
+    rw [List.drop_eq_getElem_cons hlt]
+    simp [List.getElem?_eq_getElem hlt] at hg
+    rw [hg]
+  rw [hd] at h
+  unfold scanMatch at h
+  simp only [if_true] at h
+  cases hs : scanMatch g tgt (gs.drop (idx + 1)) (0 + 1) with
+  | none => simp [hs] at h
+  | some k =>
+    simp [hs] at h
+    obtain ⟨a, b, c⟩ := scanMatch_sound g tgt hne _ 1 k (by omega) (by simpa using hs)
+    refine ⟨k, by omega, ?_, b, c⟩
+    have : j = idx + 1 + k := by omega
+    subst this
+    simpa [List.getElem?_drop] using a
+
+/-- **`%` from a closer** lands on its opener (this is what the repair made true): the nearest earlier
+opener of the same kind at which the nesting, counted backwards from the closer, is back to zero. -/
+theorem matchFrom_backward (gs : List Gr) (idx j : Nat) (g tgt : Gr)
+    (hg : gs[idx]? = some g) (hp : partner g = some (tgt, false)) (h : matchFrom gs idx = some j) :
+    ∃ k, j + 1 + k = idx ∧ gs[j]? = some tgt ∧
+      1 + (((gs.take idx).reverse).take (k + 1)).count g = (((gs.take idx).reverse).take (k + 1)).count tgt ∧
+      ∀ i, i < k → (((gs.take idx).reverse).take (i + 1)).count tgt < 1 + (((gs.take idx).reverse).take (i + 1)).count g := by
+  have hne := partner_ne g tgt false hp
+  unfold matchFrom at h
+  simp only [hg, hp] at h
+  have hlt : idx < gs.length := by
+    rcases Nat.lt_or_ge idx gs.length with h' | h'
+    · exact h'
+    · simp [List.getElem?_eq_none_iff.mpr h'] at hg
+  have hd : (gs.take (idx + 1)).reverse = g :: (gs.take idx).reverse := by
+    rw [List.take_succ_eq_append_getElem hlt]
+    simp [List.getElem?_eq_getElem hlt] at hg
+    simp [hg]
+  rw [hd] at h
+  unfold scanMatch at h
+  simp only [if_true] at h
+  cases hs : scanMatch g tgt (gs.take idx).reverse (0 + 1) with
+  | none => simp [hs] at h
+  | some k =>
+    simp [hs] at h
+    obtain ⟨a, b, c⟩ := scanMatch_sound g tgt hne _ 1 k (by omega) (by simpa using hs)
+    have hk : k < idx := by
+      have := (List.getElem?_eq_some_iff.mp a).1
+      simp at this; omega
+    refine ⟨k, by omega, ?_, b, c⟩
+    have hj : j = idx - 1 - k := by omega
+    subst hj
+    rw [List.getElem?_reverse (by simp; omega)] at a
+    simp at a
+    have e : min idx gs.length - 1 - k = idx - 1 - k := by omega
+    rw [e] at a
+    rw [List.getElem?_take] at a
+    simp at a
+    exact a.2
+
+/-- `%` never leaves the text. -/
+theorem evalDelimMatch_inside (s : MS) (p : Nat) (h : evalDelimMatch s = .onto p) : p < s.max := by
+  unfold evalDelimMatch at h
+  split at h
+  · cases h
+  · rename_i q hq
+    cases h
+    unfold findMatching at hq
+    split at hq
+    · cases hq
+    · rename_i idx _
+      cases hg : s.gs[idx]? with
+      | none => simp [matchFrom, hg] at hq
+      | some g =>
+        cases hp : partner g with
+        | none => simp [matchFrom, hg, hp] at hq
+        | some tb =>
+          obtain ⟨tgt, b⟩ := tb
+          cases b with
+          | true =>
+            obtain ⟨k, _, a, _⟩ := matchFrom_forward s.gs idx p g tgt hg hp hq
+            have := (List.getElem?_eq_some_iff.mp a).1
+            exact this
+          | false =>
+            obtain ⟨k, _, a, _⟩ := matchFrom_backward s.gs idx p g tgt hg hp hq
+            have := (List.getElem?_eq_some_iff.mp a).1
+            exact this
+
+/-- `a (b [c] d) e`: from the `)` at 10 back to the `(` at 2; before the repair the motion failed. -/
+example : matchFrom ("a (b [c] d) e".toList.map (fun c => [c])) 10 = some 2 := by decide
+example : matchFromOld ("a (b [c] d) e".toList.map (fun c => [c])) 10 = none := by decide
+example : matchFrom ("a (b [c] d) e".toList.map (fun c => [c])) 2 = some 10 := by decide
+example : matchFrom ("a (b [c] d) e".toList.map (fun c => [c])) 7 = some 5 := by decide
+/-- nesting of the same kind is respected, other kinds are ignored: `((]))` -/
+example : matchFrom ("((]))".toList.map (fun c => [c])) 0 = some 4 := by decide
+example : matchFrom ("((]))".toList.map (fun c => [c])) 3 = some 1 := by decide
+/-- an unbalanced closer has no match -/
+example : matchFrom ("a) b".toList.map (fun c => [c])) 1 = none := by decide
+/-- the cursor need not be on a delimiter: the next one on the line is taken, else the opener before -/
+example : evalDelimMatch ⟨"ab (cd) e\n".toList.map (fun c => [c]), 0, true, false, []⟩ = .onto 6 := by decide
+example : evalDelimMatch ⟨"ab (cd) e\n".toList.map (fun c => [c]), 4, true, false, []⟩ = .onto 3 := by decide
+example : evalDelimMatch ⟨"ab (cd) e\n".toList.map (fun c => [c]), 8, true, false, []⟩ = .onto 6 := by decide
+
+end Vicut.DelimThms
+
+namespace Vicut.DelimThms
+open Vicut Vicut.Delim
+
+/-- **`[(` `])` `[{` `]}`** answer with an unescaped delimiter of the kind asked for, at one of the
+positions scanned (after the cursor for the closers, before it for the openers). -/
+theorem scanUnmatched_sound (gs : List Gr) (up down : Gr) :
+    ∀ (ps : List Nat) (d i : Nat), scanUnmatched gs up down ps d = some i →
+      i ∈ ps ∧ gs[i]? = some down ∧ escaped gs i = false := by
+  intro ps
+  induction ps with
+  | nil => intro d i h; simp [scanUnmatched] at h
+  | cons p rest ih =>
+    intro d i h
+    unfold scanUnmatched at h
+    by_cases he : escaped gs p = true
+    · simp only [he, if_true] at h
+      obtain ⟨a, b⟩ := ih d i h
+      exact ⟨List.mem_cons_of_mem _ a, b⟩
+    · simp only [he] at h
+      cases hg : gs[p]? with
+      | none => simp [hg] at h
+      | some g =>
+        simp only [hg] at h
+        by_cases h1 : g = up
+        · simp only [h1, if_true] at h
+          obtain ⟨a, b⟩ := ih _ i h
+          exact ⟨List.mem_cons_of_mem _ a, b⟩
+        · simp only [h1, if_false] at h
+          by_cases h2 : g = down
+          · simp only [h2, if_true] at h
+            by_cases h3 : d = 0
+            · simp only [h3, if_true] at h
+              cases h
+              refine ⟨List.mem_cons_self, by rw [hg, h2], by simpa using he⟩
+            · simp only [h3, if_false] at h
+              obtain ⟨a, b⟩ := ih _ i h
+              exact ⟨List.mem_cons_of_mem _ a, b⟩
+          · simp only [h2, if_false] at h
+            obtain ⟨a, b⟩ := ih _ i h
+            exact ⟨List.mem_cons_of_mem _ a, b⟩
+
+theorem findUnmatched_fwd (s : MS) (o c : Gr) (i : Nat) (h : findUnmatched s o c true = some i) :
+    s.cur ≤ i ∧ i < s.max ∧ s.gs[i]? = some c ∧ escaped s.gs i = false := by
+  unfold findUnmatched at h
+  simp only [if_true] at h
+  obtain ⟨a, b, e⟩ := scanUnmatched_sound _ _ _ _ _ _ h
+  simp [List.mem_range'] at a
+  exact ⟨by omega, by omega, b, e⟩
+
+theorem findUnmatched_bwd (s : MS) (o c : Gr) (i : Nat) (h : findUnmatched s o c false = some i) :
+    i < s.cur ∧ s.gs[i]? = some o ∧ escaped s.gs i = false := by
+  unfold findUnmatched at h
+  simp only [Bool.false_eq_true, if_false] at h
+  obtain ⟨a, b, e⟩ := scanUnmatched_sound _ _ _ _ _ _ h
+  simp at a
+  exact ⟨a, b, e⟩
+
+/-- `f(a, g(b), c)`: from `a` (2) `])` goes to the last `)` (12), `[(` to the first `(` (1); inner pairs are skipped -/
+example : evalUnmatched ⟨"f(a, g(b), c)".toList.map (fun c => [c]), 2, true, false, []⟩ ['('] [')'] true = .on 12 := by decide
+example : evalUnmatched ⟨"f(a, g(b), c)".toList.map (fun c => [c]), 11, true, false, []⟩ ['('] [')'] false = .on 1 := by decide
+/-- an escaped delimiter is not one -/
+example : evalUnmatched ⟨"a \\) b)".toList.map (fun c => [c]), 0, true, false, []⟩ ['('] [')'] true = .on 6 := by decide
+
+end Vicut.DelimThms
